@@ -543,6 +543,8 @@ func main() {
 		gen(seed, tier)
 	case "impl":
 		impl()
+	case "extract":
+		extractMain(os.Args[2:])
 	default:
 		os.Exit(2)
 	}
